@@ -1,5 +1,5 @@
 """C02 - Static resources: the right file, its exact bytes, its media type (DESIGN.md section 4, C02)."""
-import os, hashlib
+import os, hashlib, re
 from .. import core, fetch, server, httpstrict, models
 from ..gen import tree as treegen, req as reqgen
 
@@ -201,11 +201,107 @@ def run(c):
                 srv.cleanup()
             t.cleanup()
     live_tree(c, rng.fork("live"), ext_types)
+    refused_characters(c, rng.fork("refused"))
+    huge_files(c, rng.fork("huge"))
     # metamorphic media type: the same extension got the same type everywhere
     for ext, types in ext_types.items():
         if len(types) > 1:
             c.violation("C02:media-type:depends-on-more-than-extension", "extension %r was labelled %r" % (ext, sorted(types)), {"extension": ext})
     c.extra["extensions_observed"] = len(ext_types)
+
+
+def huge_files(c, rng):
+    """files of tens to hundreds of megabytes (sizes just above powers of two), over real sockets: whole file, HEAD, open-ended range"""
+    import socket
+    c.need("a file above 64 MiB served in full")
+    t = treegen.generate(rng.fork("t"), depth=0, n_files=2, symlinks=False, plant_secrets=False, tag="c02-huge", root_name="root")
+    srv = None
+    try:
+        sizes = [(1 << 24) + 1, (1 << 26) + 4096] + ([] if c.quick else [(1 << 27) + 17, (1 << 28) + 1])
+        block = rng.bytes(1 << 20)
+        for n in sizes:
+            name = "/huge-%d.bin" % n
+            with open(t.abs(name), "wb") as f:
+                left = n
+                k = 0
+                while left > 0:
+                    chunk = (bytes([k % 251]) + block)[: min(left, (1 << 20) + 1)]
+                    f.write(chunk)
+                    left -= len(chunk)
+                    k += 1
+        srv = server.Server(t.root, threads=2)
+        if not srv.started:
+            c.inconc("server did not start")
+            return
+        for n in sizes:
+            name = "/huge-%d.bin" % n
+            want = hashlib.sha256()
+            with open(t.abs(name), "rb") as f:
+                whole = f.read()
+            for method, hdr, first in (("GET", "", 0), ("HEAD", "", 0), ("GET", "Range: bytes=5-\r\n", 5), ("GET", "Range: bytes=%d-\r\n" % (n - (1 << 26) - 3 if n > (1 << 26) + 3 else 1), (n - (1 << 26) - 3 if n > (1 << 26) + 3 else 1))):
+                so = socket.socket()
+                so.settimeout(120)
+                chunks = []
+                try:
+                    so.connect((srv.ip, srv.port))
+                    so.sendall(("%s %s HTTP/1.1\r\nHost: x\r\n%s\r\n" % (method, name, hdr)).encode())
+                    while True:
+                        ch = so.recv(1 << 20)
+                        if not ch:
+                            break
+                        chunks.append(ch)
+                except OSError:
+                    pass
+                finally:
+                    so.close()
+                buf = b"".join(chunks)
+                head, _, body = buf.partition(b"\r\n\r\n")
+                m = re.search(rb"(?i)content-length: *(\d+)", head)
+                st = head[9:12].decode("latin-1")
+                c.ev()
+                c.cls("huge", n.bit_length(), method, "range" if hdr else "whole")
+                expect_len = n - first
+                rp = {"file": name, "size": n, "method": method, "range": hdr.strip(), "status": st, "content_length": m.group(1).decode() if m else None, "received": len(body)}
+                if st != ("206" if hdr else "200") or not m or int(m.group(1)) != expect_len or (method == "GET" and body != whole[first:]):
+                    c.violation("C02:huge-file:%s:%s" % (method, "range" if hdr else "whole"), "%s %s (%d bytes%s) answered %s, Content-Length %s, %d body bytes; expected %d" % (method, name, n, ", " + hdr.strip() if hdr else "", st, rp["content_length"], len(body), expect_len), rp)
+                elif n > (1 << 26):
+                    c.seen("a file above 64 MiB served in full")
+    finally:
+        if srv:
+            srv.cleanup()
+        t.cleanup()
+
+
+def refused_characters(c, rng):
+    """files whose path (the served directory's own name included) contains a character the file-ext dependency refuses:
+    the property makes no exception for them"""
+    names = {"space": " ", "ampersand": "&", "semicolon": ";", "single-quote": "'", "double-quote": '"', "pipe": "|"}
+    for where in ("file-name", "root-name"):
+        for cname, ch in names.items():
+            if where == "file-name" and ch in " \"|":
+                continue   # blank, '"' and '|' cannot be written raw into a request target, and the server does not decode escapes
+            t = treegen.generate(rng.fork(where, cname), depth=0, n_files=3, symlinks=False, plant_secrets=False, tag="c02-refused", root_name=("site" + ch + "x") if where == "root-name" else "root")
+            srv = None
+            try:
+                up = "/plain.txt" if where == "root-name" else "/na" + ch + "me.txt"
+                data = b"content of a file whose path contains " + cname.encode() + b"\n" * 3
+                t.add_file(up, data)
+                srv = server.Server(t.root, threads=2)
+                if not srv.started:
+                    c.inconc("server did not start in %r" % t.root)
+                    continue
+                resp, end = srv.request(("GET %s HTTP/1.1\r\nHost: x\r\n\r\n" % up).encode("utf-8"))
+                r = httpstrict.parse(resp)
+                c.ev()
+                c.cls("refused-character", where, cname)
+                if r.status != 200 or r.body != data:
+                    c.violation("C02:status:path-contains-character-refused-by-file-ext:%s:%s" % (where, cname),
+                                "GET %s in served directory %r is answered %s (%d body bytes) although the file exists: its absolute path contains %r" % (up, os.path.basename(t.root), r.status, len(r.body), ch),
+                                {"path": up, "root": t.root, "character": ch, "response_head": resp[:300].decode("latin-1")})
+            finally:
+                if srv:
+                    srv.cleanup()
+                t.cleanup()
 
 
 def live_tree(c, rng, ext_types):
